@@ -5,9 +5,11 @@ import (
 	"encoding/json"
 	"fmt"
 	"strings"
+	"sync"
 
 	"git.defalsify.org/vise.git/engine"
 	"git.defalsify.org/vise.git/resource"
+	"git.defalsify.org/vise.git/vm"
 
 	"verif/app"
 	"verif/codec"
@@ -31,7 +33,20 @@ func init() {
 }
 
 var c17Refused = []string{"!", " 1", "-1", "\n", "*", "\xff", "1\n1", strings.Repeat("a", 256), strings.Repeat("1", 300),
-	"a" + strings.Repeat("\u00e9", 150)} // 301 bytes, 151 characters: the limit is in bytes
+	"a" + strings.Repeat("\u00e9", 150), // 301 bytes, 151 characters: the limit is in bytes
+	"%\xff\xfe"}                         // matches only the application's own format (see c17CustomFormat) and is not text
+
+// c17CustomFormat registers, once per process, an additional input format the way an application does
+// (engine.AddValidInput / examples/first): inputs starting with '%'. The registry is process-wide.
+var c17CustomOnce sync.Once
+
+func c17CustomFormat() {
+	c17CustomOnce.Do(func() { vm.RegisterInputValidator(0, "^%.*") })
+}
+
+func isAlnum(b byte) bool {
+	return b >= '0' && b <= '9' || b >= 'a' && b <= 'z' || b >= 'A' && b <= 'Z'
+}
 
 type c17Witness struct {
 	App     string `json:"app"`
@@ -184,6 +199,7 @@ func c17Exec(d c17AppDef, o lsOpts, h []string, pos int, refused string, style i
 }
 
 func c17Replay(w json.RawMessage) (string, string) {
+	c17CustomFormat()
 	var wit c17Witness
 	if err := json.Unmarshal(w, &wit); err != nil {
 		return "bad-witness", err.Error()
@@ -231,6 +247,30 @@ func c17Run(c *mc.Ctx) {
 		depth = 3
 	}
 	c.Note("valid_history_depth", fmt.Sprint(depth))
+	c17CustomFormat()
+	_, cerr := vm.ValidInput([]byte("%ok"))
+	c.Vacuity("custom-input-format-active", cerr == nil)
+	// every single byte that is not a letter or digit (and not '%', the custom format) is refused, at the
+	// first request and after one: 2 x 193 inputs on the navigator, long-lived and persisted
+	if nav, ok := c17Def("navigator"); ok {
+		for b := 0; b < 256; b++ {
+			if isAlnum(byte(b)) || b == '%' || !c.Mine() {
+				continue
+			}
+			for _, o := range []lsOpts{{Mode: "long-lived"}, {Mode: "persisted", Backend: "mem"}} {
+				for pos := 0; pos <= 1; pos++ {
+					h := []string{"1", "2"}
+					sig, msg, reqs := c17Exec(nav, o, h, pos, string([]byte{byte(b)}), 2, nil)
+					c.Count("evaluations", 1)
+					c.Count("single_byte_inputs", 1)
+					c.Count("transitions", int64(reqs))
+					if sig != "" {
+						c.Fail(sig, msg, c17Witness{App: nav.name, Opts: o, Inputs: h, Pos: pos, Refused: qstr(string([]byte{byte(b)})), Style: 2})
+					}
+				}
+			}
+		}
+	}
 	// long-lived-persister: one engine WITH a persister for the whole session (the engine.Loop arrangement)
 	backends := []lsOpts{{Mode: "long-lived"}, {Mode: "persisted", Backend: "mem"}, {Mode: "persisted", Backend: "fs"}, {Mode: "long-lived-persister", Backend: "mem"}}
 	if c.Mine() {
